@@ -124,6 +124,7 @@ func (w *world) release(a *act, rel func()) {
 		rel()
 		rel()
 	case 3:
+		c.Pub() // the release function is handed to whichever task calls it later
 		w.stash = append(w.stash, rel)
 	}
 }
@@ -134,6 +135,7 @@ func (w *world) maybeStashed() {
 	if len(w.stash) > 0 && w.c.S.FaultP(500) {
 		rel := w.stash[0]
 		w.stash = w.stash[1:]
+		w.c.Sub()
 		w.c.S.Count("fault:double-release-later")
 		if w.writers+w.readers > 0 {
 			w.c.S.Count("probe:double-release-while-held")
@@ -428,6 +430,7 @@ func run(c *core.Ctx) {
 		return
 	}
 	// final drain: repeated releases that were stashed, then the lock must be free
+	c.Sub()
 	for _, rel := range w.stash {
 		c.S.Count("fault:double-release-later")
 		rel()
